@@ -65,12 +65,64 @@ def table(fl: Flow, keep: Optional[Callable[[str, str], bool]] = None):
     total = fl.cprinter.show_cond(()) if not fl.returns else None
     rets = [fl.canon(e) for e in merged_result(fl)]
     effs = []
-    for e in fl.effects:
-        s = fl.canon(e.expr)
+    merged = _merge_exclusive_stores(fl)
+    for e, expr, cond in merged:
+        s = fl.canon(expr)
         if keep is not None and not keep(e.kind, s):
             continue
-        effs.append((e.kind, s, fl.canon_cond(e.cond), e))
+        effs.append((e.kind, s, fl.canon_cond(cond), e))
     return rets, effs
+
+
+def _merge_exclusive_stores(fl: Flow):
+    """`if c: x.a = A else: x.a = B`  ==  `x.a = A if c else B`: stores to one target under pairwise exclusive
+    conditions are one store of a conditional value under the disjunction of the conditions.
+    -> [(Eff, expression, condition)] in program order (a merged store sits where its first part was)."""
+    pr = fl.cprinter
+    out: list = []
+    by_target: dict = {}
+    for e in fl.effects:
+        if e.kind == "store" and isinstance(e.expr, ast.Assign):
+            by_target.setdefault(pr.show(e.expr.targets[0]), []).append(e)
+    done: set = set()
+    for e in fl.effects:
+        if id(e) in done:
+            continue
+        if not (e.kind == "store" and isinstance(e.expr, ast.Assign)):
+            out.append((e, e.expr, e.cond))
+            continue
+        group = [x for x in by_target[pr.show(e.expr.targets[0])] if id(x) not in done]
+        if len(group) > 1:
+            bs = [pr._mk("and", [pr._bool(t, pol) for t, pol in x.cond]) if x.cond else ("const", True) for x in group]
+            excl = True
+            for i in range(len(bs)):
+                for j in range(i + 1, len(bs)):
+                    t = pr._tables([pr._mk("and", [bs[i], bs[j]])])
+                    if t is None or t[1][0] != 0:
+                        excl = False
+            if excl:
+                # the common prefix of the conditions stays the condition; the rest moves into the value
+                common = []
+                for parts in zip(*[x.cond for x in group]):
+                    if all(ast.dump(p[0]) == ast.dump(parts[0][0]) and p[1] == parts[0][1] for p in parts):
+                        common.append(parts[0])
+                    else:
+                        break
+                val: ast.AST = group[-1].expr.value
+                for x in reversed(group[:-1]):
+                    val = ast.IfExp(test=_cond_ast(x.cond[len(common):]), body=x.expr.value, orelse=val)
+                # the merged store happens whenever any part happens; when the parts cover the common condition this is `common`
+                disj_all = pr._mk("or", bs)
+                cm = pr._mk("and", [pr._bool(t, pol) for t, pol in common]) if common else ("const", True)
+                t = pr._tables([disj_all, cm])
+                if t is not None and t[1][0] == t[1][1]:
+                    out.append((e, ast.Assign(targets=e.expr.targets, value=val), tuple(common)))
+                    for x in group:
+                        done.add(id(x))
+                    continue
+        out.append((e, e.expr, e.cond))
+        done.add(id(e))
+    return out
 
 
 def compare(rule: Rule, model: Model, f: FuncInfo, ref_src: str, key: str, *,
